@@ -1606,7 +1606,7 @@ def compile_try_expression(compiler, expr, root, body, catchers, orelse, finalbo
     else:
         finalbody = compiler._compile_branch(finalbody)
         finalbody += finalbody.expr_as_stmt()
-        finalbody = finalbody.stmts
+        finalbody = finalbody.stmts or [asty.Pass(expr)]
 
     expr_name = asty.Name(expr, id=return_var.id, ctx=ast.Load())
     returnable = Result(
